@@ -4,7 +4,7 @@
 set -u
 id="$1"; patch="$2"; demo="$3"; file="$4"; anchor="$5"; crate="$6"; filter="$7"
 wt=/tmp/confirm-$id
-export CARGO_TARGET_DIR=/tmp/confirm-target
+export CARGO_TARGET_DIR="${CONFIRM_TARGET:-/tmp/confirm-target}"
 git -C /repo worktree remove --force "$wt" 2>/dev/null
 git -C /repo worktree add -q "$wt" HEAD || exit 3
 cd "$wt"
